@@ -234,6 +234,9 @@ pub fn run_plant<K: HKey>(sid: &Value, cfg: &Cfg, ops: &[Value], sel0: usize, sc
     let u = Universe::<K>::new(&cfg.kt);
     let sets: Vec<Value> = env["plants"].as_array().cloned().unwrap_or_default();
     let dir = fresh(scratch, "plant");
+    let src = scratch.join("plant-src");
+    let _ = fs::remove_dir_all(&src);
+    copy_dir(&base, &src);
     for set in sets {
         for verify in [false, true] {
             let _ = fs::remove_dir_all(&dir);
@@ -265,12 +268,106 @@ pub fn run_plant<K: HKey>(sid: &Value, cfg: &Cfg, ops: &[Value], sel0: usize, sc
             let cres = st.exec(&json!({"op": "cleanup"}), 0);
             let cobs = st.observe();
             st.close();
+            // the two other clean-ups, each on its own copy of the planted directory
+            let (qv, onev) = if verify { (json!({"on": false}), json!({"on": false})) } else { other_cleanups::<K>(&dir, &c2, &u, &set, scratch) };
             out.emit(&json!({"ev": "plant", "plants": set, "verify": verify, "strict": strict,
-                             "rec": {"disk": disk, "res": res, "obs": obs}, "cres": cres, "cobs": cobs}));
+                             "rec": {"disk": disk, "res": res, "obs": obs}, "cres": cres, "cobs": cobs, "quar": qv, "one": onev}));
         }
     }
     let _ = fs::remove_dir_all(&dir);
     let _ = fs::remove_dir_all(&base);
+    let _ = fs::remove_dir_all(&src);
+}
+
+/// `quarantine_orphans` into a fresh directory, and `delete_orphan` for every named content (orphaned or not), on
+/// copies of the planted directory `dir` (which has been cleaned by `delete_orphans` meanwhile, so the plants are applied again).
+fn other_cleanups<K: HKey>(dir: &Path, cfg: &Cfg, u: &Universe<K>, set: &Value, scratch: &Path) -> (Value, Value) {
+    let names = names_of(u);
+    let replant = |tag: &str| -> PathBuf {
+        let d = scratch.join(tag);
+        let _ = fs::remove_dir_all(&d);
+        // dir was produced from base + plants and then cleaned; rebuild the planted state from its own listing is not
+        // possible, so the caller's base copy is used: dir's parent holds "plant-src"
+        copy_dir(&scratch.join("plant-src"), &d);
+        for p in set.as_array().cloned().unwrap_or_default() {
+            apply_plant::<K>(&d, u, &p);
+        }
+        d
+    };
+    let _ = dir;
+    // ---- quarantine
+    let qd = replant("plant-q");
+    let qdir = scratch.join("quarantine");
+    let _ = fs::remove_dir_all(&qdir);
+    let mut st = Store::<K>::new(&qd, cfg);
+    let r0 = st.open();
+    let quar = if let (Some(_), Some(stats)) = (st.cas.as_ref(), st.stats.as_ref()) {
+        let r = catch_unwind(AssertUnwindSafe(|| stats.quarantine_orphans(&qdir)));
+        let (ok, n, sk, errs) = match r {
+            Ok(Ok(rr)) => (true, rr.orphans_quarantined as i64, rr.orphans_skipped as i64, rr.errors.len() as i64),
+            _ => (false, -1, -1, -1),
+        };
+        // what arrived in the quarantine directory: file name = hex of the hash, bytes = the content
+        let mut moved = vec![];
+        let mut intact = true;
+        let mut strange = 0;
+        for e in fs::read_dir(&qdir).into_iter().flatten().flatten() {
+            let name = e.file_name().to_string_lossy().to_string();
+            let bytes = fs::read(e.path()).unwrap_or_default();
+            match names.contents.iter().find(|c| hexs(&c.1) == name) {
+                Some(c) => {
+                    moved.push(c.0.clone());
+                    intact &= blake3::hash(&bytes).as_bytes() == &c.1;
+                }
+                None => {
+                    // a planted file at the canonical path of a hash that is none of the named contents (its bytes are
+                    // garbage by construction): an orphan like any other, it arrives under the hash its path spelled
+                    if name.len() == 64 && name.bytes().all(|b| b.is_ascii_hexdigit()) {
+                        moved.push("?".to_string());
+                    } else {
+                        strange += 1;
+                    }
+                }
+            }
+        }
+        moved.sort();
+        let o = st.observe();
+        json!({"on": true, "open": r0, "ok": ok, "n": n, "skipped": sk, "errors": errs, "moved": moved, "intact": intact, "strange": strange, "obs": o})
+    } else {
+        json!({"on": false})
+    };
+    st.close();
+    let _ = fs::remove_dir_all(&qd);
+    let _ = fs::remove_dir_all(&qdir);
+    // ---- delete_orphan, one hash at a time, for EVERY named content
+    let od = replant("plant-one");
+    let mut st = Store::<K>::new(&od, cfg);
+    let r0 = st.open();
+    let one = if let (Some(_), Some(stats)) = (st.cas.as_ref(), st.stats.as_ref()) {
+        let mut res = vec![];
+        for c in crate::gamma::CONTENT_NAMES.iter() {
+            let h = u.hash_of(c);
+            let v = match catch_unwind(AssertUnwindSafe(|| stats.delete_orphan(&h))) {
+                Ok(Ok(true)) => "true",
+                Ok(Ok(false)) => "false",
+                Ok(Err(_)) => "err",
+                Err(_) => "panic",
+            };
+            res.push(json!(v));
+        }
+        // and a second time: everything is gone or was never an orphan
+        let again: Vec<Value> = crate::gamma::CONTENT_NAMES
+            .iter()
+            .map(|c| json!(matches!(catch_unwind(AssertUnwindSafe(|| stats.delete_orphan(&u.hash_of(c)))), Ok(Ok(false)))))
+            .collect();
+        let o = st.observe();
+        json!({"on": true, "open": r0, "res": res, "again": again, "obs": o})
+    } else {
+        json!({"on": false})
+    };
+    st.close();
+    let _ = fs::remove_dir_all(&od);
+    (quar, one)
 }
 
 pub fn run_gate<K: HKey>(sid: &Value, cfg: &Cfg, ops: &[Value], sel0: usize, scratch: &Path, out: &mut Out, env: &Value) {
